@@ -15,6 +15,8 @@ from checks import parsegen, parse_common, pipeline_gen
 
 THEOREMS = ["C09_parse_total", "C09_scan_boundaries", "C09_parse_old_refuted", "C09_parse_fixed_witness", "C09_range_count_total", "C09_model_parse_total"]
 PROPS = "theories/Props/C09.v"
+PROPS_C = "theories/Props/C09c.v"
+THEOREMS_C = ["C09_default_of_terminates", "C09_default_of_inner_terminates", "C09_compute_terminates", "C09_default_of_start_only_refuted"]
 PROPS_B = "theories/Props/C09b.v"
 THEOREMS_B = ["C09_resolve_terminates", "C09_resolve_terminates_own", "C09_resolve_terminates_stack", "C09_project_keys", "C09_final_value_terminates", "C09_walk_fuel_adequate", "C09_walk_stops", "C09_look_one_restart"]
 REGISTRY = {
@@ -55,7 +57,7 @@ def shrink(ctx, s, pred):
 def run(ctx):
     from checks import isolate
     isolate.enter(ctx)
-    ok, problems = core.coq_audit_multi(ctx, [(PROPS, THEOREMS), (PROPS_B, THEOREMS_B)])   # C09b: foreign-key resolution terminates within its fuel
+    ok, problems = core.coq_audit_multi(ctx, [(PROPS, THEOREMS), (PROPS_B, THEOREMS_B), (PROPS_C, THEOREMS_C)])   # C09b: foreign-key resolution terminates within its fuel
     n_valid, n_mal = (600, 2400) if ctx.quick else (6000, 30000)
     cases = parsegen.gen_cases(ctx.rng, n_valid, n_mal)
     meta, codes, _ = parse_common.evaluate(ctx, "c09", cases, "check_C09")
@@ -147,27 +149,62 @@ def classify_panic(msg, files):
     return None
 
 
-def run_batch(exe, args, dirs, timeout=900):
-    """one process for many project directories; if the process dies (abort / stack overflow) the culprit is recorded and the
-    rest is run in a new process.  -> per directory: list of output lines, or ["CRASH <signal>"] / ["TIMEOUT"]"""
+WATCHDOG_S = {"quick": 20, "thorough": 40}
+WATCHDOG = [20]          # seconds a single project may take in one process before it is declared hung (set per tier in pipeline())
+
+
+def run_batch(exe, args, dirs, timeout=None, watchdog=None):
+    """one process for many inputs (project directories / lines), every input under a wall-clock watchdog: the harness flushes a
+    line after every stage and `END` after every input; if nothing arrives for [watchdog] seconds the process is killed, the
+    input is recorded as `X HANG <what was reached>` and the rest is run in a new process.  A process that dies (abort / stack
+    overflow) is recorded as `X CRASH`.  -> per input: list of output lines"""
+    import queue
+    import threading
+    import time
+    wd = watchdog or WATCHDOG[0]
     res = {}
     todo = list(dirs)
     while todo:
-        try:
-            p = subprocess.run([exe] + args, input="".join(d + "\n" for d in todo), capture_output=True, text=True, timeout=timeout)
-            out, rc = p.stdout, p.returncode
-        except subprocess.TimeoutExpired as t:
-            out, rc = (t.stdout.decode() if isinstance(t.stdout, bytes) else (t.stdout or "")), "timeout"
-        cur, done = [], 0
-        for l in out.splitlines():
+        p = subprocess.Popen([exe] + args, stdin=subprocess.PIPE, stdout=subprocess.PIPE, stderr=subprocess.DEVNULL, text=True)
+        q = queue.Queue()
+
+        def feed(p=p, todo=todo):
+            try:
+                p.stdin.write("".join(d + "\n" for d in todo))
+                p.stdin.close()
+            except (BrokenPipeError, OSError):
+                pass
+
+        def read(p=p, q=q):
+            for l in p.stdout:
+                q.put(l.rstrip("\n"))
+            q.put(None)
+        threading.Thread(target=feed, daemon=True).start()
+        threading.Thread(target=read, daemon=True).start()
+        cur, done, verdict = [], 0, None
+        last = time.time()
+        while done < len(todo):
+            try:
+                l = q.get(timeout=max(0.05, wd - (time.time() - last)))
+            except queue.Empty:
+                verdict = "HANG\tno answer within %d s after: %s" % (wd, " ; ".join(x.replace("\t", " ")[:40] for x in cur) or "(nothing)")
+                break
+            if l is None:
+                p.wait()
+                verdict = "CRASH\texit status %s" % p.returncode
+                break
             if l.startswith("END\t"):
                 res[todo[done]] = cur
                 cur, done = [], done + 1
+                last = time.time()
             else:
                 cur.append(l)
-        if done == len(todo):
+        if verdict is None:
+            p.wait()
             break
-        res[todo[done]] = cur + ["X\t%s" % ("TIMEOUT" if rc == "timeout" else "CRASH\texit status %s" % rc)]
+        p.kill()
+        p.wait()
+        res[todo[done]] = cur + ["X\t" + verdict]
         todo = todo[done + 1:]
     return [res[d] for d in dirs]
 
@@ -177,7 +214,7 @@ def stage_results(lines):
     r = {}
     for l in lines:
         f = l.split("\t")
-        if f[0] in "PGBTILX" and len(f) >= 2:
+        if f[0] in "PDGBTILX" and len(f) >= 2:
             r[f[0]] = (f[1], f[2] if len(f) > 2 else "", f[3] if len(f) > 3 else "")
     return r
 
@@ -188,15 +225,21 @@ def pipeline_exes(ctx):
     return macro, build
 
 
-def run_projects(root, macro, build, projs, tag):
+def run_projects(root, macro, build, projs, tag, watchdog=None):
     dirs = []
     for i, p in enumerate(projs):
         d = os.path.join(root, "%s%d" % (tag, i))
         pipeline_gen.write(d, p)
         dirs.append(d)
-    m = run_batch(macro, ["total"], dirs)
-    b = run_batch(build, [], dirs)
-    return [dict(stage_results(x), **stage_results(y)) for x, y in zip(m, b)]
+    m = run_batch(macro, ["total"], dirs, watchdog=watchdog)
+    b = run_batch(build, [], dirs, watchdog=watchdog)
+    out = []
+    for x, y in zip(m, b):
+        sx, sy = stage_results(x), stage_results(y)
+        if "X" in sx and "X" in sy:
+            sy["X"] = (sx["X"][0], sx["X"][1] + " | build side: " + sy["X"][1], "")
+        out.append(dict(sx, **sy))
+    return out
 
 
 def failures_of(st, files):
@@ -206,7 +249,7 @@ def failures_of(st, files):
         if cls == "PANIC":
             out.append(("panic", stage, classify_panic(a, files), a))
         elif stage == "X":
-            out.append(("crash" if cls == "CRASH" else "hang", stage, None, a))
+            out.append(("crash" if cls == "CRASH" else "hang", stage, None, a))     # HANG: a stage did not return (watchdog)
         elif cls == "err" and stage in "PB":
             if not b.strip():
                 out.append(("empty-error", stage, None, a))
@@ -241,7 +284,62 @@ def pipeline(ctx):
         shutil.rmtree(root, ignore_errors=True)
 
 
+# ---- DefaultedLocales: the real default_of / compute on generated tables against the Coq model (Parser/Defaults.v)
+PRE_D = ("From Coq Require Import List NArith Bool.\nImport ListNotations.\nFrom LI Require Import Base.StrOps.\n"
+         "From LI Require Import Parser.Defaults.\nFrom LI Require Import Parser.DefaultsCheck.\nOpen Scope N_scope.\n")
+
+
+def defaults_tables(rng, n):
+    out = []
+    for nm, ls, table in pipeline_gen.inherits_shapes():
+        out.append((nm, "en", table, ls + ["en", "zz"]))
+        # the per-key table only holds the locales whose value is defaulted: every sub-table of a shape occurs too
+        for _ in range(2):
+            sub = {k: v for k, v in table.items() if rng.random() < 0.7}
+            out.append((nm + "/sub", "en", sub, ls + ["en"]))
+    for _ in range(n):
+        ls = pipeline_gen.LOCS6[:rng.randint(1, 6)]
+        table = {l: rng.choice(ls + ["en", "en"]) for l in ls if rng.random() < 0.85}
+        out.append(("random", "en", table, ls + ["en"]))
+    return out
+
+
+def defaults_correspondence(ctx, macro):
+    tabs = defaults_tables(ctx.rng, 150 if ctx.quick else 1500)
+    lines = ["%s|%s|%s" % (d, ",".join("%s>%s" % kv for kv in t.items()), ",".join(q)) for _, d, t, q in tabs]
+    outs = run_batch(macro, ["defaults"], lines, watchdog=5)
+    items, meta = [], []
+    for (nm, d, t, q), o in zip(tabs, outs):
+        got = {}
+        hang = any(l.startswith("X\t") for l in o)
+        for l in o:
+            if l.startswith("R "):
+                for pair in l[2:].split("|")[0].split(","):
+                    if "=" in pair:
+                        a, b = pair.split("=")
+                        got[a] = b
+        impl = core.coq_list(["(%s, %s)" % (core.coq_str(x), "(Some %s)" % core.coq_str(got[x]) if x in got else "None") for x in q])
+        items.append("(mk_case %s %s %s)" % (core.coq_str(d), core.coq_list(["(%s, %s)" % (core.coq_str(a), core.coq_str(b)) for a, b in t.items()]), impl))
+        meta.append({"shape": nm, "default": d, "table": t, "queried": q, "default_of": got, "did_not_return": hang})
+    codes = core.coq_eval(ctx, "c09d_%d" % os.getpid(), PRE_D, items, "check", min_per_shard=20)
+    bad = [m for m, c in zip(meta, codes) if c == 3]
+    dis = [m for m, c in zip(meta, codes) if c == 2]
+    if bad:
+        bad.sort(key=lambda m: len(m["table"]))
+        core.violation(ctx, "defaults_hang" if bad[0]["did_not_return"] else "defaults_spec", {
+            "failing_input": bad[0], "count": len(bad),
+            "explanation": "DefaultedLocales::default_of / compute on this table " + ("did not return within 5 s (HANG)" if bad[0]["did_not_return"] else
+                           "returned a locale that is neither the end of the chain nor (when the chain loops) the default locale")})
+    elif dis:
+        core.violation(ctx, "correspondence", {"broken": "correspondence Parser/Defaults.v (default_of) vs DefaultedLocales::default_of",
+                                               "first_disagreeing_input": dis[0], "disagreements": len(dis)}, no_input=True)
+    return {"tables": len(tabs), "locales_queried": sum(len(m["queried"]) for m in meta), "hangs": sum(m["did_not_return"] for m in meta),
+            "spec_failures": len(bad), "disagreements": len(dis), "shapes": sorted(set(m["shape"].split("/")[0] for m in meta))[:40]}
+
+
 def _pipeline(ctx, macro, build, root):
+    WATCHDOG[0] = WATCHDOG_S["quick" if ctx.quick else "thorough"]
+    defaults_cov = defaults_correspondence(ctx, macro)
     named = pipeline_gen.named_cases(ctx.rng)
     projs = named + [pipeline_gen.random_case(ctx.rng) for _ in range(700 if ctx.quick else 8000)]
     results = run_projects(root, macro, build, projs, "p")
@@ -278,21 +376,24 @@ def _pipeline(ctx, macro, build, root):
             seen.add(key)
 
             def still(q, kind=kind, stage=stage, cid=cid, msg=msg):
-                st = run_projects(root, macro, build, [q], "shr")[0]
+                st = run_projects(root, macro, build, [q], "shr", watchdog=4 if kind == "hang" else None)[0]
                 for k2, s2, c2, m2 in failures_of(st, q["files"]):
                     if k2 == kind and s2 == stage and (c2 == cid if cid else m2[:40] == msg[:40]):
                         return True
                 return False
-            small = pipeline_gen.shrink(p, still, limit=150 if ctx.quick else 400)
+            small = pipeline_gen.shrink(p, still, limit=25 if kind == "hang" else 150 if ctx.quick else 400)
             reported.append({"kind": kind, "stage": {"P": "parse_locales", "G": "code generator", "B": "TranslationsInfos::parse_at_dir",
                                                      "T": "get_translations/write_to_dir", "I": "get_icu_keys", "L": "get_locales_langids",
-                                                     "X": "process"}[stage],
+                                                     "D": "DefaultedLocales::compute/default_of on every key",
+                                                     "X": "the stage named in the message did not return / the process died"}[stage],
                              "class": cid, "message": msg, "config": small["cargo"].split("[package.metadata.leptos-i18n]")[-1].strip(),
                              "files": small["files"], "generated_as": p["cls"]})
-        core.violation(ctx, "pipeline_panic", {
+        core.violation(ctx, "pipeline_hang" if reported[0]["kind"] == "hang" else "pipeline_panic", {
             "failing_input": reported[0], "more": reported[1:],
-            "explanation": "a stage of the loading pipeline did not end with Ok or a descriptive Err on this project "
-                           "(panic caught by catch_unwind / process crash / timeout / error text without any location)",
+            "explanation": ("HANG: a stage of the loading pipeline did not return within the watchdog's %d s on this project (the "
+                            "property forbids unbounded loops); " % WATCHDOG[0] if reported[0]["kind"] == "hang" else "") +
+                           "a stage of the loading pipeline did not end with Ok or a descriptive Err on this project "
+                           "(panic caught by catch_unwind / process crash / hang / error text without any location)",
             "count": len(unknown)})
     # stack-depth probes in child processes
     depth = {}
@@ -329,10 +430,12 @@ def _pipeline(ctx, macro, build, root):
         c = p["cls"].split(":")[0]
         cls_hist[c] = cls_hist.get(c, 0) + 1
     return {
-        "level": "correspondence + fault enumeration (no Coq model of these stages)",
+        "level": "correspondence + fault enumeration (no Coq model of these stages, except DefaultedLocales: Props/C09c.v)",
+        "watchdog_seconds_per_project": WATCHDOG[0],
+        "defaulted_locales_correspondence": defaults_cov,
         "projects": len(projs), "named_fault_cases": len(named), "stage_runs": stage_runs,
         "distinct_projects": len(set(json.dumps(p["files"], sort_keys=True) + p["cargo"] for p in projs)),
-        "stages": "P parse_locales(false) | G load_locales() code generator | B TranslationsInfos::parse_at_dir | T get_translations().write_to_dir "
+        "stages": "P parse_locales(false) | D DefaultedLocales::compute + default_of on every key | G load_locales() code generator | B TranslationsInfos::parse_at_dir | T get_translations().write_to_dir "
                   "| I get_icu_keys | L get_locales_langids/get_locales/get_namespaces",
         "counts_per_stage_and_class": dict(sorted(counts.items())),
         "fault_classes_generated": cls_hist,
